@@ -192,6 +192,12 @@ func BuildCall(ctx context.Context, op *Op) (hrpc.Call, error) {
 	switch op.Kind {
 	case "get":
 		opts := []func(hrpc.Call) error{hrpc.TimeRangeUint64(op.Nonce, hrpc.MaxTimestamp)}
+		switch op.TR {
+		case "to":
+			opts[0] = hrpc.TimeRangeUint64(0, op.Nonce)
+		case "none":
+			opts = opts[:0]
+		}
 		if op.Fams != nil {
 			opts = append(opts, hrpc.Families(op.Fams))
 		}
@@ -537,6 +543,9 @@ func (w *World) runScan(rec *OpRec) {
 	op := rec.Op
 	e := w.Env
 	opts := []func(hrpc.Call) error{hrpc.TimeRangeUint64(op.Nonce, hrpc.MaxTimestamp)}
+	if op.TR == "to" {
+		opts[0] = hrpc.TimeRangeUint64(0, op.Nonce)
+	}
 	if op.Fams != nil {
 		opts = append(opts, hrpc.Families(op.Fams))
 	}
